@@ -140,4 +140,45 @@ mod verif_kani_ops {
         std::mem::forget(a);
         std::mem::forget(b);
     }
+
+    /// C10: equality between Integer and Double compares numerically (the Integer is promoted), in both operand orders
+    #[kani::proof]
+    fn data_eq_numeric() {
+        let i: i64 = kani::any();
+        let d: f64 = kani::any();
+        let a = Data::Integer(i);
+        let b = Data::Double(d);
+        let ab = a == b;
+        let ba = b == a;
+        assert!(ab == ba);
+        assert!(ab == ((i as f64) == d));
+        std::mem::forget(a);
+        std::mem::forget(b);
+    }
+
+    /// C10: equality of scalars of the same kind is the equality of their values
+    #[kani::proof]
+    fn data_eq_same_kind() {
+        let i1: i64 = kani::any();
+        let i2: i64 = kani::any();
+        let a = Data::Integer(i1);
+        let b = Data::Integer(i2);
+        assert!((a == b) == (i1 == i2));
+        std::mem::forget(a);
+        std::mem::forget(b);
+        let d1: f64 = kani::any();
+        let d2: f64 = kani::any();
+        let c = Data::Double(d1);
+        let d = Data::Double(d2);
+        assert!((c == d) == (d1 == d2));
+        std::mem::forget(c);
+        std::mem::forget(d);
+        let b1: bool = kani::any();
+        let b2: bool = kani::any();
+        let e = Data::Boolean(b1);
+        let f = Data::Boolean(b2);
+        assert!((e == f) == (b1 == b2));
+        std::mem::forget(e);
+        std::mem::forget(f);
+    }
 }
